@@ -1,6 +1,6 @@
-import Usid.Model.SliceTo
+import Usid.Proofs.SliceTo
 /-! C11 — slice-to-dataset preserves every selected element with its coordinates.
-    (Structural theorems; the coordinate-map theorem composes C07, C09 and C08 and is in progress.) -/
+    Structural theorems about `sliceToDataset` and the coordinate theorems for a sliced regular-grid side. -/
 namespace Usid.C11
 open Usid Usid.Slice Usid.SliceTo Usid.Anc
 
@@ -67,5 +67,58 @@ theorem rows_cols_are_the_selection (main : NDArr α) (pos specT : Side) (psz ss
     slice2D main pos.inds specT.inds pos.labels specT.labels psz ssz sd false = .ok r.data := by
   obtain ⟨_, _, _, _, _, _, _, _, _, hd⟩ := sides main pos specT psz ssz sd r h
   exact hd
+
+/-! ### a sliced side of a regular grid keeps every selected element under its coordinates -/
+open Usid.Grid Usid.SubGrid
+
+/-- **The selected rows form a sub-grid.**  For every regular grid (any sizes, any storage permutation `rate`
+    of the change rates) and ANY per-dimension selection lists: the rows returned by the 2-D path, in
+    increasing order, are the points of the sub-grid enumerated with the same rate order, and at the i-th of
+    them the index of every dimension is its selected index number (i / sub-stride % sub-size). -/
+theorem selected_rows_subgrid (sz : Nat → Nat) (rate : List Nat) (k : Nat) (sels : List (List Nat))
+    (hperm : rate.Perm (List.range k)) (hk : sels.length = k) :
+    let p := selPred sels
+    selectedRows (pointMatrix sz rate k) sels = (List.range (rate.map (s' sz p)).prod).map (rho sz p rate) ∧
+    ∀ i d, d ∈ rate → i < (rate.map (s' sz p)).prod →
+      gridIdx sz rate (rho sz p rate i) d = (L sz p d).getD (i / strideBefore (s' sz p) rate d % s' sz p d) 0 := by
+  intro p
+  exact ⟨selectedRows_eq sz rate k sels hperm hk,
+    fun i d hd hi => gridIdx_rho sz p rate (hperm.nodup_iff.mpr List.nodup_range) i d hd hi⟩
+
+/-- **The dimensions of a sliced side.**  With distinct labels and at least one selected index per dimension,
+    `_get_dims_for_slice` + `order_fast_to_slow` hand the writer exactly the dimensions that remain
+    multi-valued, in rate order (fastest first, whatever the storage order of the columns), each with its
+    label, unit and the reference values at its selected indices; the `arb.` placeholder when none remains. -/
+theorem sliced_side_dims (sz : Nat → Nat) (rate : List Nat) (k : Nat) (V : Nat → List Int) (sels : List (List Nat))
+    (labels units : List String) (hperm : rate.Perm (List.range k)) (hk : sels.length = k) (hkpos : 0 < k)
+    (hl : labels.length = k) (hnd : labels.Nodup) (hsel : ∀ d ∈ rate, 0 < subSize sz sels d) :
+    dimsForSlice ⟨labels, units, pointMatrix sz rate k, pointValues sz rate k V⟩
+        (selectedRows (pointMatrix sz rate k) sels) =
+      .ok (if (keptRate sz rate sels).isEmpty then [{ name := "arb.", units := "a. u.", values := [4] }]
+           else (keptRate sz rate sels).map (fun d =>
+             { name := labels.getD d "", units := units.getD d "", values := Wsel sz (selPred sels) V d })) :=
+  dimsForSlice_grid sz rate k V sels labels units hperm hk hkpos hl hnd hsel
+
+/-- **Coordinates are preserved.**  In the ancillaries freshly written for a sliced side
+    (`write_ind_val_dsets` of the dimensions above, fastest-first flag), every remaining dimension `d` has a
+    stored row carrying its label and unit, and at column i - the i-th selected row / column of the source, in
+    increasing order, which is where the 2-D slice puts that row's data (C07 `slice2D_elements`) - its value is
+    the source's value of `d` there.  Hence every selected element keeps the value of every remaining
+    dimension. -/
+theorem sliced_side_coordinates (sz : Nat → Nat) (rate : List Nat) (k : Nat) (V : Nat → List Int) (sels : List (List Nat))
+    (labels units : List String) (hperm : rate.Perm (List.range k)) (hk : sels.length = k)
+    (hsel : ∀ d ∈ rate, 0 < subSize sz sels d) (d : Nat) (hd : d ∈ keptRate sz rate sels) :
+    let dims := (keptRate sz rate sels).map (fun d =>
+      ({ name := labels.getD d "", units := units.getD d "", values := Wsel sz (selPred sels) V d } : Dim))
+    let w := writeIndVal dims false
+    let rows := selectedRows (pointMatrix sz rate k) sels
+    ∃ (j : Nat) (rv : List Int), w.labels[j]? = some (labels.getD d "") ∧ w.units[j]? = some (units.getD d "") ∧
+      w.values[j]? = some rv ∧
+      ∀ i, i < rows.length → rv[i]? = some (((pointValues sz rate k V).getD (rows.getD i 0) []).getD d 0) :=
+  written_side_values sz rate k V sels labels units hperm hk hsel d hd
+
+-- non-vacuity: a 3 x 2 grid stored with the second dimension fastest, selecting indices {0, 2} of the first
+example : selectedRows (pointMatrix (fun d => [3, 2].getD d 1) [1, 0] 2) [[0, 2], [0, 1]] = [0, 1, 4, 5] ∧
+    keptRate (fun d => [3, 2].getD d 1) [1, 0] [[0, 2], [0, 1]] = [1, 0] := by decide
 
 end Usid.C11
